@@ -489,6 +489,10 @@ pub fn draw_case(rng: &mut Rng) -> Case {
         3 | 4 | 5 => roots[0] = format!("build/../{}", files[0].path),
         6 => roots[0] = format!("sub/../build/../{}", files[0].path),
         7 => roots[0] = files[0].path.replacen('/', "//", 1),
+        // the project file named through the parent directory (the root is
+        // still inside the working directory; what its includes may name is
+        // then judged by the safety invariants only)
+        8 | 9 => roots[0] = format!("../proj/{}", files[0].path),
         1 if nsrc > 1 => roots.push(files[1].path.clone()),
         2 if nsrc > 1 => {
             let second = files[rng.below(nsrc)].path.clone();
@@ -790,6 +794,18 @@ fn proc_plan_of(case: &Case) -> ProcPlan {
     ProcPlan { job, faults, keys: "00000000000000000000000000000000".to_string(), clock: None, scratch_tag: String::new(), env: vec![], stdout_full: false }
 }
 
+/// Legal-but-unusual kernel behaviour (short and interrupted reads, a size
+/// hint that is too large) must not change what an inclusion delivers.
+fn add_kernel_behaviour(plan: &mut ProcPlan, rng: &mut Rng) {
+    if rng.chance(1, 4) {
+        for k in ["short-read", "eintr-read", "stat-fd-inflate", "stat-fd-fail"] {
+            if rng.chance(1, 2) {
+                plan.faults.push(ProcFault { kind: k.to_string(), path: "*".to_string() });
+            }
+        }
+    }
+}
+
 pub fn check_proc_record(case: &Case, rec: &ProcRecord) -> Vec<Violation> {
     let v = check_proc_record_inner(case, rec);
     if !v.is_empty() && case.files.iter().any(|f| f.items.iter().any(|i| matches!(i, Item::IfInclude(_)))) {
@@ -871,7 +887,8 @@ pub fn run_proc(ctx: &mut Ctx, _c: &Corpus, verif: &str) -> Vec<Replay> {
     let mut rng = Rng::new(ctx.run_seed);
     let case = draw_case(&mut rng);
     let mut out = Vec::new();
-    let plan = proc_plan_of(&case);
+    let mut plan = proc_plan_of(&case);
+    add_kernel_behaviour(&mut plan, &mut rng);
     let rec = ctx.exec_proc(&plan, "C14", verif);
     if let Some(why) = &rec.skipped {
         ctx.stats.inc(&format!("skipped:{}", why));
@@ -903,9 +920,20 @@ pub fn run_proc(ctx: &mut Ctx, _c: &Corpus, verif: &str) -> Vec<Replay> {
 }
 
 pub fn classify_proc(r: &Replay, verif: &str) -> Vec<Violation> {
-    match &r.c14 {
-        Some(case) => check_proc_case(case, verif),
-        None => vec![],
+    match (&r.c14, &r.proc) {
+        (Some(case), Some(plan)) if !plan.faults.is_empty() && plan.job.argv.len() > 1 => {
+            // re-render the (possibly minimised) case, keep the kernel behaviours
+            let mut p = proc_plan_of(case);
+            for f in &plan.faults {
+                if f.path == "*" {
+                    p.faults.push(f.clone());
+                }
+            }
+            let rec = crate::procsim::run_proc(&p, verif);
+            check_proc_record(case, &rec)
+        }
+        (Some(case), _) => check_proc_case(case, verif),
+        _ => vec![],
     }
 }
 
@@ -920,8 +948,11 @@ pub fn minimise(r: &Replay, tmpdir: &str, budget_s: f64) -> Replay {
     let mut best = r.clone();
     let rebuild = |rep: &mut Replay| {
         let case = rep.c14.clone().unwrap();
-        if rep.proc.is_some() {
-            rep.proc = Some(proc_plan_of(&case));
+        if let Some(old) = rep.proc.clone() {
+            let mut p = proc_plan_of(&case);
+            // keep the kernel behaviours of the original process plan
+            p.faults.extend(old.faults.iter().filter(|f| f.path == "*").cloned());
+            rep.proc = Some(p);
         } else {
             let job = case.render();
             let faults: Vec<Fault> = case.fault.iter().cloned().collect();
